@@ -106,12 +106,14 @@ class BBUnitaryChecker(ast.NodeVisitor):
         self._check_call(node, node.tensor_ty)
 
     def visit_BarrierExpr(self, node: BarrierExpr) -> None:
-        # Barrier is always allowed
-        pass
+        # Barrier is always allowed, but its arguments still have to be checked
+        for arg in node.args:
+            self.visit(arg)
 
     def visit_StateResultExpr(self, node: StateResultExpr) -> None:
-        # StateResult is always allowed
-        pass
+        # StateResult is always allowed, but its arguments still have to be checked
+        for arg in node.args:
+            self.visit(arg)
 
     def visit_CheckedModifiedBlock(self, node: CheckedModifiedBlock) -> None:
         # The body is checked on its own under the combined flags. The arguments of the
